@@ -199,6 +199,10 @@ func luaBody(d *def) string {
 		s += "local t = {} package.loaded[" + q + "] = t emit('set', " + id + ", t) emit('ret', " + id + ", t) return t\n"
 	case "module":
 		s += "module(...)\nemit('mod', " + id + ", _M, _NAME, _PACKAGE)\n"
+	case "peek":
+		// the loader looks at its own package.loaded entry while it is being loaded
+		s += "local x = package.loaded[" + q + "]\nlocal ok1, r1 = pcall(function() return type(getmetatable(x)) .. tostring(getmetatable(x)) .. type(debug.getfenv(x)) end)\nlocal ok2, r2 = pcall(tostring, x)\nlocal ok3, r3 = pcall(function() return x == x and x ~= nil end)\n" +
+			"emit('peek', " + id + ", ok1 or tostring(r1), ok2 or tostring(r2), ok3 or tostring(r3))\n" + tab
 	case "fail":
 		s += "error('E-boom:" + id + ":' .. k)\n"
 	case "failonce":
@@ -270,6 +274,18 @@ func (h *harness) goLoader(d *def) lua.LGFunction {
 			emit("ret", t)
 			L.Push(t)
 			return 1
+		case "peek":
+			x := L.GetField(loaded(), d.name)
+			look := func(f func()) lua.LValue {
+				if o := gl.Protect(func() error { f(); return nil }); o.GoPanic != nil {
+					return lua.LString("Go panic: " + o.PanicStr)
+				} else if o.Err != nil {
+					return lua.LString(o.Err.Error())
+				}
+				return lua.LTrue
+			}
+			emit("peek", look(func() { _ = L.GetMetatable(x).Type() }), look(func() { L.ToStringMeta(x) }), look(func() { L.Equal(x, x) }))
+			return tab()
 		case "fail":
 			L.RaiseError("E-boom:%d:%d", d.id, k)
 		case "failonce":
